@@ -156,6 +156,7 @@ class StartRequests(Observer):
                 self.ops[key] = (self.sim.now_us, name, args)
             elif name == 'restart_sequence':
                 self.distribution_entry[(item['inst'], self.sim.instances[item['inst']].incarnation)] = self.sim.now_us
+                self.distribution_first[(item['inst'], self.sim.instances[item['inst']].incarnation)] = self.sim.now_us
 
     def on_plan_item(self, item, fired):
         # an operation that was rejected has no effect: forget it
